@@ -130,11 +130,11 @@ def monitor(tr, which):
             # C16: credits
             if not op['delivered_ok']:
                 pay = op['pay']; user = op['dispatcher']
-                items = [(t, int(v)) for t, n, v in pay['esdt']] if pay['esdt'] else [(b'EGLD'.hex(), int(pay['egld']))]
+                items = [(t, int(n), int(v)) for t, n, v in pay['esdt']] if pay['esdt'] else [(b'EGLD'.hex(), 0, int(pay['egld']))]
                 expected = {}
-                for t, v in items:
-                    credits[(user, t)] = credits.get((user, t), 0) + v
-                    expected[refund_key(user, t, 0)] = credits[(user, t)]
+                for t, n, v in items:
+                    credits[(user, t, n)] = credits.get((user, t, n), 0) + v
+                    expected[refund_key(user, t, n)] = credits[(user, t, n)]
                 if which == 'C16':
                     got = {key: int(v, 16) if v else 0 for key, v in gov_sd if key.startswith(REFUND)}
                     exp = {key: v for key, v in expected.items()}
@@ -145,12 +145,13 @@ def monitor(tr, which):
             elif which == 'C16' and any(key.startswith(REFUND) for key, _ in gov_sd):
                 fail('a successful dispatch credited a refund')
         elif kind == 'withdrawRefund':
-            user = op['caller']; tok = op['token']
-            c = credits.get((user, tok), 0)
+            user = op['caller']; tok = op['token']; nonce = int(op['nonce'])
+            ltok = tok if nonce == 0 else tok + b'#'.hex() + nonce.to_bytes(8, 'big').hex()     # balance key of an SFT instance
+            c = credits.get((user, tok, nonce), 0)
             if ok and which == 'C16':
-                got = [int(v) for a, t, v in res['bd'] if a == user and t == tok]
+                got = [int(v) for a, t, v in res['bd'] if a == user and t == ltok]
                 # the caller's balance must have moved by exactly the credit (no entry when the credit is 0)
-                moved = any(True for a, t, v in res['bd'] if a == user and t == tok)
+                moved = any(True for a, t, v in res['bd'] if a == user and t == ltok)
                 if c == 0 and moved:
                     fail('withdrawal paid out without a credit')
                 if c != 0 and not moved:
@@ -160,7 +161,7 @@ def monitor(tr, which):
                     fail('credit not cleared by its withdrawal')
                 if any(key != refund_key(user, tok, op['nonce']) for key in changed):
                     fail('withdrawal touched another account\'s credit')
-            if ok: credits[(user, tok)] = 0
+            if ok: credits[(user, tok, nonce)] = 0
         elif kind == 'transferOp':
             if ok:
                 if which == 'C12' and op['caller'] not in (operator, gov):
